@@ -68,7 +68,8 @@ ScopeView(v) ==
     /\ hist' = Append(hist, [op |-> "scope", view |-> v])
     /\ UNCHANGED <<ctxs, accs>>
 
-\* key "inner" lives one level below the root, "leaf" two levels below; flavour: string or rendered view
+\* key "inner" lives one level below the root, "leaf" two levels below, "fmt" is a formatter accessor (no key path);
+\* flavour: string / rendered view / Display / t_format! view / t_format_string!
 MakeAccessor(v, key, flavour) ==
     /\ Len(accs) < MaxAccs /\ (key = "inner" => views[v].depth <= 1)
     /\ accs' = Append(accs, [view |-> v, key |-> key, flavour |-> flavour])
